@@ -22,12 +22,21 @@
    * `C11_set_then_get_same_bytes` — end to end through the protocol layer and the bucket model: a served `set`
      followed by a served `get` of that key replies with exactly the bytes and flags that were sent, for any value
      bytes, any other content of the store (keys whose hashes do not collide with it), any noreply flag.
-  Partial: the reply round trip (`Response.Read` ∘ `Response.Write`) is tied by the correspondence only (model
-  `readResp`, engine proto `rresp` lines on every third reply).
+   * reply round trip (Lemmas/ProtoResp*): for EVERY byte string the server may put on the wire for a reply (`Resp.Wire`: blocks
+     in any order, as Go's map iteration gives them) a client's `readResp` (= Response.Read) recovers exactly the items
+     sent - key, flag, cas and body byte for byte, whatever the bodies hold (CR LF, NUL, "END\r\n", "VALUE ..." look-alikes) -,
+     consumes exactly the reply and leaves what follows untouched (pipelining): `C11_reply_values`, `C11_reply_line`,
+     `C11_reply_number`; end to end `C11_get_reply_parses_back`: what the server writes for a get / gets of token keys parses
+     back to the items it looked up.  Two reply classes Response.Read refuses are proved as such (`C11_reply_none_refused`:
+     the "none" of optimize_stat; a STAT line with an empty value).
+  Partial: the statement for every reply of `serveOnce` on arbitrary input (`Proto.serveOnce_reply_readable_statement`) is
+  stated, not proved (each constructor is; the case split over `process` is missing); the reply forms are tied to the real
+  Response.Read by engine proto (`rresp` lines on every third reply).
 -/
 import GoBeans.Lemmas.Proto
 import GoBeans.Lemmas.ProtoRT
 import GoBeans.Lemmas.ProtoE2E
+import GoBeans.Lemmas.ProtoResp
 open Proto
 
 theorem C11_cut_stream (cfg : Cfg) (st : St) (inp : Bytes) (h : (readReq cfg st.led inp).res = .net) :
@@ -161,3 +170,55 @@ example : (readReq {} {} (ascii "set k 0 0\r\n")).res = .err .invalidCmd := by d
 example : (readReq {} {} (ascii "set k 0 0 2\r\nabcd\r\n")).res = .err .badChunk := by decide +kernel
 example : (readReq {} {} (ascii "get a b c\r\nget d\r\n")).res = .ok ∧ (readReq {} {} (ascii "get a b c\r\nget d\r\n")).n = 11 := by decide +kernel
 example : (serveOnce {} {} (ascii "set k 0 0 2 noreply\r\n\r\n\r\n")).resp = none := by decide +kernel
+
+/-! the reply round trip -/
+
+/-- VALUE replies: whatever order the blocks are written in, the client reads back a permutation of exactly the items sent,
+    bodies byte for byte, and what follows the reply is left untouched -/
+theorem C11_reply_values (cfg : Cfg) (hmax : cfg.bodyMax < 9223372036854775808) (cas : Bool) (vs : List PItem)
+    (hv : ∀ p ∈ vs, ItemOK cfg p) (hnd : (vs.map (·.key)).Nodup) (w : Bytes)
+    (hw : (Resp.value cas (vs.map RItem.ofLit)).Wire w) :
+    ∃ ps : List PItem, ps.Perm vs ∧
+      ∀ (rest : Bytes) (fuel : Nat), vs.length + 1 ≤ fuel →
+        readResp cfg fuel (w ++ rest) []
+          = some ({ status := ascii "END", msg := [], items := ps.map (PItem.norm cas) }, rest) :=
+  readResp_wire_value_lit cfg hmax cas vs hv hnd w hw
+
+/-- one-line replies (STORED, NOT_FOUND, DELETED, …, and the error lines with their messages) -/
+theorem C11_reply_line (cfg : Cfg) (status msg w : Bytes)
+    (hs : (status ∈ endStatuses ∧ msg = []) ∨ (status ∈ msgStatuses ∧ Words msg))
+    (hw : (Resp.line status msg).Wire w) (rest : Bytes) (fuel : Nat) (hf : 1 ≤ fuel) :
+    readResp cfg fuel (w ++ rest) [] = some ({ status := status, msg := msg, items := [] }, rest) :=
+  readResp_wire_line cfg status msg w hs hw rest fuel hf
+
+/-- the number an incr replies with -/
+theorem C11_reply_number (cfg : Cfg) (v : Int) (hv : I64 v) (w : Bytes) (hw : (Resp.num (itoa v)).Wire w)
+    (rest : Bytes) (fuel : Nat) (hf : 1 ≤ fuel) :
+    readResp cfg fuel (w ++ rest) [] = some ({ status := ascii "INCR", msg := itoa v, items := [] }, rest) :=
+  readResp_wire_num cfg v hv w hw rest fuel hf
+
+/-- the reply `Response.Read` cannot parse: the "none" of optimize_stat -/
+theorem C11_reply_none_refused (cfg : Cfg) (w : Bytes) (hw : (Resp.line (ascii "none") []).Wire w) (rest : Bytes) (fuel : Nat) :
+    readResp cfg fuel (w ++ rest) [] = none :=
+  readResp_wire_none_refused cfg w hw rest fuel
+
+/-- end to end: a served get / gets of token keys consumes exactly the request, keeps the connection, and every wire form
+    of its reply parses back to the items the server looked up (or, for a single key whose lookup failed, to the
+    SERVER_ERROR line with its message) -/
+theorem C11_get_reply_parses_back (cfg : Cfg) (hmax : cfg.bodyMax < 9223372036854775808) (st : St) (gets : Bool)
+    (ks : List Bytes) (more : Bytes) (hks : ∀ k ∈ ks, Tok k) (hne : ks ≠ [])
+    (hlen : ∀ k ∈ ks, k.length ≤ cfg.maxKeyLen)
+    (hstore : ∀ it ∈ lookedUp cfg st ks, I64 it.flag ∧ it.len ≤ cfg.bodyMax) :
+    let r : Req := { cmd := if gets then ascii "gets" else ascii "get", keys := ks }
+    let s := serveOnce cfg st (writeReq r ++ more)
+    s.n = (writeReq r).length ∧ s.closing = false ∧
+    ((s.resp = some (.value gets (lookedUp cfg st ks)) ∧
+        ∀ w, (Resp.value gets (lookedUp cfg st ks)).Wire w →
+          ∃ (its : List RItem) (ps : List PItem), its.Perm (lookedUp cfg st ks) ∧ Carries its ps ∧
+            ∀ (rest : Bytes) (fuel : Nat), (lookedUp cfg st ks).length + 1 ≤ fuel →
+              readResp cfg fuel (w ++ rest) []
+                = some ({ status := ascii "END", msg := [], items := ps.map (PItem.norm gets) }, rest))
+     ∨ (∃ k msg, ks = [k] ∧ (clientGet cfg st k).1 = .err msg ∧ s.resp = some (.line (ascii "SERVER_ERROR") msg) ∧
+        ∀ w, (Resp.line (ascii "SERVER_ERROR") msg).Wire w → ∀ (rest : Bytes) (fuel : Nat), 1 ≤ fuel →
+          readResp cfg fuel (w ++ rest) [] = some ({ status := ascii "SERVER_ERROR", msg := msg, items := [] }, rest))) :=
+  serveOnce_get_roundtrip cfg hmax st gets ks more hks hne hlen hstore
